@@ -608,24 +608,21 @@ func (exec *Executor) executeDecimalMethod(
 		}
 	}
 
-	// Round to the scale.
+	// Round to the scale. When 10^scale or num*10^scale overflows a float64,
+	// num has no digits beyond that scale and is left as it is; when 10^scale
+	// underflows to zero, every float64 rounds to zero at that scale.
+	rounded := num
 	ratio := math.Pow10(scale)
-	rounded := math.Round(num*ratio) / ratio
-
-	// Count the digits before the decimal point.
-	numStr := strconv.FormatFloat(rounded, 'f', -1, 64)
-	count := 0
-	for _, ch := range numStr {
-		if ch == '.' {
-			break
-		}
-		if '1' <= ch && ch <= '9' {
-			count++
-		}
+	switch {
+	case ratio == 0:
+		rounded = 0
+	case !math.IsInf(ratio, 0) && !math.IsInf(num*ratio, 0):
+		rounded = math.Round(num*ratio) / ratio
 	}
 
-	// Make sure it's got no more than precision digits.
-	if count > 0 && count > precision-scale {
+	// Make sure it's got no more than precision digits, that is, that its
+	// absolute value is less than 10^(precision-scale).
+	if rounded != 0 && math.Abs(rounded) >= math.Pow10(precision-scale) {
 		return 0, fmt.Errorf(
 			`%w: argument "%v" of jsonpath item method %v is invalid for type %v`,
 			ErrVerbose, value, op, "numeric",
